@@ -710,9 +710,26 @@ fn m2_seeds(_ctx: &SeedCtx) -> Vec<Seed> {
 }
 
 fn m2_drive(_s: &Seed, data: &[u8], p: &mut Probe) {
+    use wow_m2::M2ModelAnimationExt;
     if let Some(fmt) = p.call("parse_m2", || wow_m2::parse_m2(&mut Cursor::new(data))) {
         p.call("M2Model::validate", || fmt.model().validate());
+        // the readers that take the parsed model together with the bytes it came from
+        let m = fmt.model();
+        p.call("M2Model::parse_all_embedded_skins", || m.parse_all_embedded_skins(data));
+        p.call("M2Model::parse_embedded_skin", || m.parse_embedded_skin(data, 0));
+        p.call("M2Model::parse_embedded_skin", || m.parse_embedded_skin(data, 3));
+        p.call("M2Model::parse_all_data", || m.parse_all_data(data));
+        p.call("M2Model::resolve_bone_animations", || m.resolve_bone_animations(data));
+        p.call("M2Model::get_bind_pose", || m.get_bind_pose(data));
     }
+    // ... and the ones that take the raw bytes only
+    p.call("extract_embedded_skin_bytes", || wow_m2::embedded_skin::extract_embedded_skin_bytes(data, 0));
+    p.call("extract_embedded_skin_bytes", || wow_m2::embedded_skin::extract_embedded_skin_bytes(data, 1));
+    p.call("M2Model::parse", || wow_m2::M2Model::parse(&mut Cursor::new(data)));
+    // companion files of a model (.phys / .skel / .bone): chunk streams of their own, offered the same bytes
+    p.call("PhysicsData::parse", || wow_m2::chunks::file_references::PhysicsData::parse(data));
+    p.call("SkeletonData::parse", || wow_m2::chunks::file_references::SkeletonData::parse(data));
+    p.call("BoneData::parse", || wow_m2::chunks::file_references::BoneData::parse(data));
 }
 
 // ---------------------------------------------------------------- skin ----
@@ -807,6 +824,10 @@ fn skin_drive(_s: &Seed, data: &[u8], p: &mut Probe) {
             std::hint::black_box(n)
         });
     }
+    // the header-less pre-WotLK layout (as embedded in a model), both submesh record sizes
+    p.call("skin::parse_embedded_skin", || wow_m2::skin::parse_embedded_skin(&mut Cursor::new(data), 256));
+    p.call("skin::parse_embedded_skin", || wow_m2::skin::parse_embedded_skin(&mut Cursor::new(data), 260));
+    p.call("SkinFile::parse", || wow_m2::SkinFile::parse(&mut Cursor::new(data)));
 }
 
 // ---------------------------------------------------------------- anim ----
@@ -895,6 +916,10 @@ fn anim_drive(_s: &Seed, data: &[u8], p: &mut Probe) {
         p.call("AnimFile::validate", || f.validate());
         p.call_plain("AnimFile::memory_usage", || std::hint::black_box(f.memory_usage().approximate_bytes));
     }
+    // a caller-chosen format (no detection), and the validating entry point
+    p.call("AnimFile::parse_with_format", || wow_m2::AnimFile::parse_with_format(&mut Cursor::new(data), wow_m2::AnimFormat::Legacy));
+    p.call("AnimFile::parse_with_format", || wow_m2::AnimFile::parse_with_format(&mut Cursor::new(data), wow_m2::AnimFormat::Modern));
+    p.call("AnimFile::parse_validated", || wow_m2::AnimFile::parse_validated(&mut Cursor::new(data)));
 }
 
 pub fn formats() -> Vec<FormatDef> {
@@ -902,7 +927,8 @@ pub fn formats() -> Vec<FormatDef> {
         FormatDef {
             name: "m2",
             family: "m2",
-            entries: &["parse_m2", "M2Model::validate"],
+            entries: &["parse_m2", "M2Model::validate", "M2Model::parse_all_embedded_skins", "M2Model::parse_embedded_skin", "M2Model::parse_all_data", "M2Model::resolve_bone_animations",
+                       "M2Model::get_bind_pose", "extract_embedded_skin_bytes", "M2Model::parse", "PhysicsData::parse", "SkeletonData::parse", "BoneData::parse"],
             seeds: m2_seeds,
             drive: m2_drive,
             cipher: None,
@@ -912,7 +938,7 @@ pub fn formats() -> Vec<FormatDef> {
         FormatDef {
             name: "skin",
             family: "skin",
-            entries: &["parse_skin", "SkinFile accessors"],
+            entries: &["parse_skin", "SkinFile accessors", "skin::parse_embedded_skin", "SkinFile::parse"],
             seeds: skin_seeds,
             drive: skin_drive,
             cipher: None,
@@ -922,7 +948,7 @@ pub fn formats() -> Vec<FormatDef> {
         FormatDef {
             name: "anim",
             family: "anim",
-            entries: &["AnimFile::parse", "AnimFile::validate", "AnimFile::memory_usage"],
+            entries: &["AnimFile::parse", "AnimFile::validate", "AnimFile::memory_usage", "AnimFile::parse_with_format", "AnimFile::parse_validated"],
             seeds: anim_seeds,
             drive: anim_drive,
             cipher: None,
